@@ -11,7 +11,8 @@
    make the code panic on purpose (command.rs: "a developer error"), which the model reproduces
    (Machine.poll_fut) and the automaton allows (h_bad). *)
 From Coq Require Import List NArith Bool Arith.
-From Crux Require Import Timer.Machine Timer.Spec Timer.SpecProofs Timer.SpecWeak Timer.MachineInv Timer.MachineProofs.
+From Crux Require Import Timer.Machine Timer.Spec Timer.SpecProofs Timer.SpecWeak Timer.MachineInv Timer.MachineProofs
+  Timer.Legacy Timer.LegacyProofs.
 Import ListNotations.
 
 (* ------------------------------------------------------------------------------------------ *)
@@ -142,6 +143,44 @@ Qed.
 Theorem C18_model_unique_ids : forall c0 xs, (c0 < USIZE)%N -> (N.of_nat (count_starts xs) <= USIZE)%N ->
   NoDup (started_ids xs (srun (sys0 c0) xs)).
 Proof. intros c0 xs Hc Hn. exact (C18_unique_ids _ _ (model_ok c0 xs Hc Hn)). Qed.
+
+(* ------------------------------------------------------------------------------------------ *)
+(* (3) the legacy capability API (crux_time::Time with the global CLEARED_TIMER_IDS set), hosted
+   under Core.  [lok true] is the property as stated, [lok false] tolerates the two listed classes. *)
+
+(* Full statement: false of the faithful model (two witnesses below, both replayed on the code) *)
+Definition C18_legacy_full_statement : Prop :=
+  forall c0 xs, (c0 < USIZE)%N -> (N.of_nat (count_lstarts xs) <= USIZE)%N ->
+  lok true [] xs (lrun (lsys0 c0) xs) = true.
+
+(* proved: for ALL input sequences the model is accepted with the two classes tolerated ... *)
+Theorem C18_legacy_model_accepted_partial : forall c0 xs, (c0 < USIZE)%N -> (N.of_nat (count_lstarts xs) <= USIZE)%N ->
+  lok false [] xs (lrun (lsys0 c0) xs) = true.
+Proof. exact legacy_model_ok. Qed.
+
+(* ... and outside the classes (no clear in the update that starts the timer, no clear after the
+   outcome) the property as stated holds *)
+Theorem C18_legacy_strict_outside_classes_partial : forall c0 xs, (c0 < USIZE)%N -> (N.of_nat (count_lstarts xs) <= USIZE)%N ->
+  lclass [] xs (lrun (lsys0 c0) xs) = 0%N -> lok true [] xs (lrun (lsys0 c0) xs) = true.
+Proof. exact legacy_model_ok_strict. Qed.
+
+Theorem C18_legacy_clear_unrequested_refuted :
+  exists xs, lok true [] xs (lrun (lsys0 1) xs) = false /\ lclass [] xs (lrun (lsys0 1) xs) = 1%N
+             /\ lrun (lsys0 1) xs = [LStarted 1 [EClear 1] [(0, RCleared 1)]].
+Proof. exact legacy_clear_unrequested_refuted. Qed.
+Theorem C18_legacy_clear_after_outcome_refuted :
+  exists xs, lok true [] xs (lrun (lsys0 1) xs) = false /\ lclass [] xs (lrun (lsys0 1) xs) = 2%N
+             /\ lrun (lsys0 1) xs = [LStarted 1 [ENotifyAfter 1] []; LCall 0 [] [(0, RElapsed 1)]; LCall 3 [EClear 1] []].
+Proof. exact legacy_clear_after_outcome_refuted. Qed.
+
+(* every accepted legacy trace (tolerant or strict): unique ids, at most one outcome per timer.
+   (That an outcome is Cleared{id} exactly when the app cleared the timer, and otherwise is the
+   shell's answer verbatim and only when the shell answered, is the LFire clause of [lok] itself.) *)
+Theorem C18_legacy_unique_ids : forall b xs os, lok b [] xs os = true -> NoDup (lstarted_ids os).
+Proof. intros b xs os H. exact (lok_ids_nodup b xs [] os H (NoDup_nil N)). Qed.
+Theorem C18_legacy_at_most_one_outcome : forall b xs os, lok b [] xs os = true ->
+  forall i, count_for i (levents_of os) <= 1.
+Proof. intros b xs os H i. pose proof (lok_one_outcome b xs [] os H i) as E. unfold lbudget in E. destruct i; exact E. Qed.
 
 (* non-vacuity: two timers, one cleared while pending (Clear sent, answered, Cleared), one fired
    and cleared before it next ran (Completed, no clear) *)
